@@ -309,7 +309,7 @@ impl Prop for C10 {
             traces: Some("traces_validated"),
             exhaustive: true,
             bounds: json!({"sigma_lay_max_fragments": tier.pick(6, 7), "one_deviation_max_tokens": tier.pick(5, 6), "two_deviations_max_tokens": tier.pick(4, 5)}),
-            minimums: vec![("states", 100_000), ("comment_and_break_layouts", 1_000), ("terminator_swaps", 2_000), ("ok_tokens", 10_000)],
+            minimums: vec![("states", 100_000), ("comment_and_break_layouts", 1_000), ("terminator_swaps", 1_000), ("ok_tokens", 10_000)],
         }
     }
 }
